@@ -69,6 +69,49 @@ func (w *World) tokEq(x, y Str) *Term {
 		}
 		panic(pathEnd{"unsupported", "comparison of a structured host string with a concrete string"})
 	}
+	// printed CIDRs: net.IP.String is injective on the canonical 16-byte form, so two
+	// prints are equal iff the addresses (To16) and the prefix lengths are
+	cidrOf := func(s Str) ([]*Term, int, bool) {
+		if s.tok != nil {
+			if s.tok.kind != "cidr" {
+				return nil, 0, false
+			}
+			return w.to16(s.tok.ip), s.tok.ones, true
+		}
+		cs, ok := s.Concrete()
+		if !ok {
+			return nil, 0, false
+		}
+		i := strings.IndexByte(cs, '/')
+		if i < 0 {
+			return nil, 0, false
+		}
+		ip := net.ParseIP(cs[:i])
+		n, err := strconv.Atoi(cs[i+1:])
+		if ip == nil || ip.String() != cs[:i] || err != nil || strconv.Itoa(n) != cs[i+1:] {
+			return nil, 0, false
+		}
+		return w.to16(bytesToTerms(w, ip.To16())), n, true
+	}
+	if (x.tok != nil && x.tok.kind == "cidr") || (y.tok != nil && y.tok.kind == "cidr") {
+		a, na, ok1 := cidrOf(x)
+		b, nb, ok2 := cidrOf(y)
+		if ok1 && ok2 {
+			if na != nb {
+				return w.tt.F
+			}
+			conj := make([]*Term, 16)
+			for i := range conj {
+				conj[i] = w.tt.Eq(a[i], b[i])
+			}
+			return w.tt.And(conj...)
+		}
+		if _, isC := x.Concrete(); isC || x.tok != nil {
+			if _, isC := y.Concrete(); isC || y.tok != nil {
+				return w.tt.F // a printed CIDR never equals an address print or a string that is not a canonical CIDR
+			}
+		}
+	}
 	bytesOf := func(s Str) ([]*Term, bool) {
 		if s.tok != nil {
 			if s.tok.kind != "ip" {
